@@ -764,7 +764,8 @@ pub fn exhaustive_scn(mut idx: u64, max_len: u32) -> Option<E1Scn> {
 
 pub fn gen_model_random(rng: &mut Rng) -> E1Scn {
     let mut sigs = e1::SigAlloc::new();
-    let n = rng.range(2, 30);
+    // (one in 25: a long history)
+    let n = if rng.chance(1, 25) { rng.range(60, 160) } else { rng.range(2, 30) };
     let mut steps = Vec::new();
     // send instants on multiples of 100 (or bursts); graces, reactions and self-exits off that grid
     let graces = [0u64, 17, 40, 130, 260];
